@@ -5,7 +5,7 @@
    share nothing is checked by the correspondence (identity tests, alternating suffixes). *)
 From Coq Require Import List Arith Bool.
 Import ListNotations.
-From PySM Require Import Impl.Engine Impl.Registry Impl.History Impl.Process Proofs.EngineProofs Proofs.CopyProofs Proofs.ProcessProofs Proofs.RegroupRefuted.
+From PySM Require Import Impl.Engine Impl.Registry Impl.History Impl.Process Proofs.EngineProofs Proofs.CopyProofs Proofs.ProcessProofs Proofs.RegroupRefuted Proofs.RegistryParity.
 
 (* a clone taken at any idle point of a sync machine that has a state IS the original's
    configuration: same stored state, same call history, nothing queued, lock free *)
@@ -49,6 +49,15 @@ Theorem C17_clone_responds_like_original :
     tl (run_ops beh md (S f) (OClone :: ops) c) = run_ops beh md (S f) ops c.
 Proof. exact clone_then_suffix_equals_suffix. Qed.
 Print Assumptions C17_clone_responds_like_original.
+
+(* whatever rounds the original was resolved in, for every group but the guard list the clone's
+   executors hold exactly the wrappers of the original's (listeners attached later included) *)
+Theorem C17_clone_has_the_callbacks_of_its_original :
+  forall md t g, g <> GCond ->
+  forall w, In w (resolve_group (md_providers (clone_md md)) g (trans_specs t g) (md_rounds (clone_md md))) <->
+            In w (resolve_group (md_providers md) g (trans_specs t g) (md_rounds md)).
+Proof. exact clone_has_the_callbacks_of_its_original. Qed.
+Print Assumptions C17_clone_has_the_callbacks_of_its_original.
 
 (* without the single-round hypothesis the statement is false of the faithful model (deviation D25, known
    finding, replayed on the real library by the check): an `unless` guard name provided by the model and
